@@ -194,6 +194,9 @@ def run(chk):
         chk.extra.setdefault("once_users", {})[fn] = sorted(s["once"])
     items = [(fn, lambda fn=fn: one(fn)) for fn in fns]
     items += [(fn + " shared", lambda fn=fn: analyse(base, chk, fn, "shared")) for fn in fns if sweep.shared_applicable(prog, fn)]
+    # the portable multiplication / squaring kernels (the code every field operation runs on in the purego configuration)
+    # are executed from their SSA as well: the sweep above sees them only through their contract
+    items += [("kernel " + w, lambda w=w: K.k_mul(base, chk, w)) for w in ("feMulGeneric", "feSquareGeneric")]
     items.sort(key=lambda it: 0 if "VarTime" in it[0] else 1)
     run_kernels(chk, items, parallel=False if len(fns) < 3 else None)
     # lazily built package-level data = every package-level object written inside a Once initialiser by some operation;
